@@ -208,7 +208,8 @@ prop("C08", NEC + "Clauses: no content change is discarded, batched changes are 
      "client positions are interpreted only by get_insertion_index and positions sent out come only from as_position (POS-CONV); "
      "the scan for a client position has an exit that depends on the line alone (a column behind the end of a line is clamped to it); "
      "no byte distance is computed from terminator-stripped lines; the changes of a notification are applied in the order they were "
-     "converted in (UPDATE-ORDER); the text kept (and lexed) at didOpen is the text handed in (REBUILD textid).",
+     "converted in and none is skipped by a shortcut exit (UPDATE-ORDER); the span of a change comes from `range`, never from rangeLength (POS-CONV rangelen); "
+     "the text kept (and lexed) at didOpen is the text handed in (REBUILD textid).",
      [{"rule": "TEXT-SYNC", "floor": 15}, {"rule": "LEN-UNITS", "floor": 3}, {"rule": "POS-CONV", "floor": 22},
       {"rule": "UPDATE-ORDER", "floor": 3},
       # "any range the server reports for a token addresses that token": semantic tokens report ranges relative to the previous token
@@ -243,7 +244,7 @@ prop("C10", NEC + "Clause: a composite node whose parser skips comments in front
       {"rule": "FMT-PURE", "filter": tag("wholedoc", "rewrite"), "floor": 2}])
 
 prop("C11", NEC + "Clauses: the printer does not read byte positions (output is a function of tree and token kinds), the "
-     "indentation unit follows insertSpaces/tabSize, null is returned exactly on equality; character literals are printed only with "
+     "indentation unit follows insertSpaces/tabSize and is put in front of lines, not of items (FMT-PURE unit), null is returned exactly on equality; character literals are printed only with "
      "escapes the lexer reads back (CHAR-ESCAPES: otherwise the formatted text re-lexes differently and a second run changes it again); the "
      "all-comments helper is applied only to text whose parts print no comments themselves (COMMENT-PAIRING nested: otherwise every run adds "
      "another copy of the inner comments in front of the node).",
@@ -281,7 +282,8 @@ prop("C14", NEC + "Clauses: the call statement is located with node, origin and 
      "is the cursor identifier's token range (IDENT-RANGE), converted by as_pos_range (POS-CONV); a token counts as lying before the "
      "cursor iff it starts before it: comparisons of token bounds with the cursor offset use one of the four forms that say so "
      "(CURSOR-CMP: the commas counted for the active parameter); an entry's documentation is the concatenation of all doc-comment "
-     "lines of its declaration (DOC-FLOW)." + PARSER_REF,
+     "lines of its declaration (DOC-FLOW); the answer does not depend on the request context and the code that counts the commas in "
+     "front of the cursor reacts to commas only (REQ-PURE)." + PARSER_REF,
      [{"rule": "FRAME", "filter": files("signature_help.rs"), "floor": 8},
       {"rule": "TRAVERSE", "filter": tag("calls"), "floor": 18}, {"rule": "SCOPE-ORDER", "filter": both(feat("hover", "signature_help"), nottag("typescope", "semantic")), "floor": 10},
       {"rule": "DISPLAY-FIELDS", "floor": 6}, {"rule": "IDENT-RANGE", "filter": feat("hover", "signature_help"), "floor": 4}, {"rule": "POS-CONV", "filter": feat("hover", "signature_help"), "floor": 4},
@@ -292,7 +294,8 @@ prop("C14", NEC + "Clauses: the call statement is located with node, origin and 
 
 prop("C15", NEC + "Clauses: legend order = enum discriminants (T6); token positions of different units/frames are not "
      "compared and declaration slices are cut in the right frame (FRAME in semantic_tokens.rs); token lengths are UTF-16 "
-     "(LEN-UNITS); the delta base advances exactly when a token is emitted (SEMTOK-PAIRING); identifiers inside a procedure are "
+     "(LEN-UNITS); the delta base advances exactly when a token is emitted, and it is the caller's running base that a collector "
+     "advances, never a copy (SEMTOK-PAIRING); identifiers inside a procedure are "
      "classified through the local-then-global LookupTable (SCOPE-ORDER)." + PARSER_REF,
      [{"rule": "TABLES-SEMTOK", "floor": 24}, {"rule": "FRAME", "filter": files("semantic_tokens.rs"), "floor": 6},
       {"rule": "LEN-UNITS", "filter": tag("lsp"), "floor": 1}, {"rule": "SEMTOK-PAIRING", "floor": 9},
